@@ -209,6 +209,15 @@ def config_spec(draw, optimizer, max_cycles=(1, 8), pop_mults=(1, 1, 1.5, 2, 3),
                 continue
             if draw(_f(0.0, 1.0)) < perturb:
                 spec[k] = _perturb(draw, params[k], reverse_lists)
+        # optional fields of the config model that the documented-scale configuration leaves at their default
+        for k, default in sorted(registry.optional_fields(optimizer).items()):
+            if draw(_f(0.0, 1.0)) < perturb:
+                if isinstance(default, bool):
+                    spec[k] = draw(st.booleans())
+                elif isinstance(default, int):
+                    spec[k] = draw(st.integers(0, 3)) if 0 <= default <= 3 else _perturb(draw, default)
+                elif isinstance(default, float):
+                    spec[k] = _perturb(draw, default)
     return spec
 
 
